@@ -145,7 +145,14 @@ Line ==
       grp |-> GroupIndex(o),
       canok |-> IF CanOk THEN 1 ELSE 0,        \* the contract: may succeed (with the first share's sharing)
       mustok |-> IF MustOk THEN 1 ELSE 0,      \*               must succeed
-      first |-> GroupIndex([ok |-> TRUE, sid |-> SidOf(Clients[inbox[1].c])])]
+      first |-> GroupIndex([ok |-> TRUE, sid |-> SidOf(Clients[inbox[1].c])]),
+      \* the sharings that reach their own threshold in this collection (a wrapper that tries the
+      \* sharings of a mixed collection one after the other may return the key of any of them)
+      reach |-> LET RS == {s \in Represented : SidThr(s) >= 1 /\ SidT(s) = DefaultT /\ Cardinality(DistinctOf(s)) >= SidThr(s)}
+                    GS == {GroupIndex([ok |-> TRUE, sid |-> s]) : s \in RS}
+                    RECURSIVE SeqOf(_)
+                    SeqOf(T) == IF T = {} THEN <<>> ELSE LET m == CHOOSE a \in T : \A b \in T : a <= b IN <<m>> \o SeqOf(T \ {m})
+                IN SeqOf(GS)]
 EmitInv == inbox # <<>> => PrintT(<<"RECOVER", ToJson(Line)>>)
 ---------------------------------------------------------------------------
 (* client populations *)
